@@ -130,6 +130,13 @@ def gen_case(rng: random.Random, *, kind=None, ndim=None, grouper=None, dimmode=
                 present = sorted({v for v in b["vals"] if v is not None})
                 extra = [present[-1] + 1] if rng.random() < 0.5 else []
                 b["expected"] = present + extra
+                if len(b["expected"]) >= 2 and rng.random() < 0.35:
+                    # the same labels handed over as a pandas.Index in another order: xarray_reduce sorts them (sort=True), the
+                    # coordinate of the result and its values must follow the same order
+                    perm = list(b["expected"])
+                    while perm == b["expected"]:
+                        rng.shuffle(perm)
+                    b["expected_perm"] = perm
 
     # variables
     variables = []
@@ -319,6 +326,11 @@ def run_flox(case, obj=None, by_args=None):
     exp = [b["bins"] if b["bins"] is not None else b["expected"] for b in case["by"]]
     if any(e is not None for e in exp):
         exp = [None if e is None else np.array(e) for e in exp]
+        for j, b in enumerate(case["by"]):
+            if b.get("expected_perm") is not None and b["bins"] is None:
+                import pandas as pd
+
+                exp[j] = pd.Index(b["expected_perm"])
         kw["expected_groups"] = exp[0] if len(exp) == 1 else tuple(exp)
         kw["isbin"] = [b["bins"] is not None for b in case["by"]] if len(exp) > 1 else case["by"][0]["bins"] is not None
     with warnings.catch_warnings():
